@@ -87,10 +87,10 @@ theorem wellTyped_step (hE : EnvOK E) (hC : ClassesOK E) (n : Nat) (recv : Val) 
       | none => exact outWT_raised E recv _ h
       | some sp =>
         simp only []
-        cases hs : setAttrV E (n+1) recv a v with
+        cases hs : setAttrV E (n+1) false recv a v with
         | error e => exact outWT_raised E recv _ h
         | ok r' =>
-          have := (knot E hE (n+1)).set recv a v r' h hr hs
+          have := (knot E hE (n+1)).set false recv a v r' h hr hs
           exact ⟨this, this⟩
     | delattr a =>
       simp only []
@@ -150,6 +150,7 @@ theorem wellTyped_step (hE : EnvOK E) (hC : ClassesOK E) (n : Nat) (recv : Val) 
             obtain ⟨hconf, hwt⟩ := elemColl_ok E hE n c fs a sp op coll h hattr hr hcoll
             have hname := attr?_name E hattr
             apply outWT_outcomeOf E _ _ _ h
+            apply wt_invalidate E hE
             apply wt_setField E sp.name coll ⟨fs, rfl⟩ h
             right
             refine ⟨?_, hwt⟩
